@@ -372,6 +372,10 @@ pub fn exec(run: u64, prog: &Value, out: &mut Out) {
         // body too large to ship: first 16 bytes (opcode + PkgLength + start of body) and the total length
         e["len"] = json!(bytes.len() as u64);
         e["head"] = jbytes(&bytes[..bytes.len().min(16)]);
+        e["tail"] = jbytes(&bytes[bytes.len() - bytes.len().min(16)..]);
+        // number of bytes at the end that equal the last byte (the filler blob is the last thing in these objects)
+        let last = bytes.last().copied().unwrap_or(0);
+        e["tail_run"] = json!(bytes.iter().rev().take_while(|b| **b == last).count() as u64);
     } else {
         e["bytes"] = jbytes(&bytes);
     }
